@@ -201,7 +201,9 @@ func (e *Engine) appendOp(st *State, fr *Frame, cc *ssa.CallCommon, args []Value
 	for _, l := range e.leafKeys(elemKey(elemT), elemT) {
 		st.Mem[l.Path] = c.Ite(fits, stIn.Mem[l.Path], st.Mem[l.Path])
 	}
-	st.PC = append(st.PC, extra...)
+	for _, x := range extra {
+		st.Assume(x)
+	}
 	return &SliceV{Region: c.Ite(fits, base.Region, fresh), Off: c.Ite(fits, base.Off, e.i64(0)), Len: newLen, Cap: c.Ite(fits, base.Cap, ncap), Elem: elemT}
 }
 
